@@ -4,7 +4,7 @@ CONSTANTS
   XVerify = {TRUE, FALSE}
   XConnectors = {"custom", "default"}
   XTimeouts = {"none", "short"}
-  XVias = {"dial", "stream-last", "stream-first"}
+  XVias = {"dial", "stream-last", "stream-first", "unix"}
   XHosts = {"name", "ip"}
   XStores = {"system", "withCA"}
   XResps = {"success", "refuse", "garbage", "close", "hangup", "wrongid", "stall"}
